@@ -23,9 +23,10 @@ with spaces := SNil | SCons (sp : space) (sps : spaces).
 
 Section Space.
 Context {T : Type} `{Num T}.
-(* _blas_is_applicable(x1.data, x2.data, out.data) as a function of the three
-   tensor objects (it depends on their memory layout only); arbitrary *)
-Variable lay : nat -> nat -> nat -> bool.
+(* memory layout (c_contiguous, f_contiguous) and "dtype in _BLAS_DTYPES" of each
+   tensor object; arbitrary *)
+Variable flg : nat -> bool * bool.
+Variable bdtf : nat -> bool.
 (* conversion to a non-floating dtype (truncation); floating dtypes store unchanged *)
 Variable icast : T -> T.
 
@@ -47,7 +48,7 @@ with ps_map3s (op : leafop) (sps : spaces) (p1 p2 po : elems) (s : store T) : ou
   end.
 
 Definition lincomb_leaf (a b : T) : leafop := fun fl i1 i2 io =>
-  lincomb_impl (if fl then (fun u => u) else icast) fl (lay i1 i2 io) a i1 b i2 io.
+  lincomb_impl (if fl then (fun u => u) else icast) fl (bdtf io) [flg i1; flg i2; flg io] a i1 b i2 io.
 Definition multiply_leaf : leafop := fun _ i1 i2 io => multiply_impl i1 i2 io.
 (* np.divide into an integer array raises (true division yields floats) *)
 Definition divide_leaf : leafop := fun fl i1 i2 io s =>
